@@ -209,7 +209,6 @@ def continuous(data, start, dt, dtype=np.int64):
 
 
 def make_confocal(iw, axes, channels, *, start=START, dt=DT, scan_count=0, lead=None, name="obj", count_dtype="int64"):
-    from lumicks.pylake.channel import empty_slice
     from lumicks.pylake.low_level import create_confocal_object
 
     lead = lead or {}
@@ -217,7 +216,7 @@ def make_confocal(iw, axes, channels, *, start=START, dt=DT, scan_count=0, lead=
     for color in COLORS:
         data = (channels or {}).get(color)
         if data is None or len(data) == 0:
-            kw[f"{color}_channel"] = empty_slice
+            pass  # absent colour: the default of create_confocal_object (no need to name channel.empty_slice)
         else:
             m = int(lead.get(color, 0))
             dtype = np.dtype(count_dtype)
